@@ -151,15 +151,19 @@ namespace Pistache::Tcp
                 auto tag = entry.getTag();
                 auto fd  = static_cast<Fd>(tag.value());
 
+                bool pending;
                 {
                     Guard guard(toWriteLock);
-                    auto it = toWrite.find(fd);
-                    if (it == std::end(toWrite))
-                    {
-                        throw std::runtime_error(
-                            "Assertion Error: could not find write data");
-                    }
+                    pending = toWrite.find(fd) != std::end(toWrite);
                 }
+                // Nothing left to write is not an error: the event was
+                // collected at the start of this wake-up, and a handler that
+                // ran since then and flushed a response stream has drained the
+                // write queue and written what was pending here as well (the
+                // write interest has been withdrawn with the last byte). This
+                // used to throw and end the process.
+                if (!pending)
+                    continue;
 
                 reactor()->modifyFd(key(), fd, NotifyOn::Read, Polling::Mode::Edge);
 
